@@ -205,3 +205,7 @@ pub(crate) mod exitcode {
     /// Something was found in an unconfigured or misconfigured state.
     pub const CONFIG: i32 = 78;
 }
+
+#[cfg(feature = "pendulum_project_ntpd_rs_verif")]
+#[path = "/verif/hooks/ntpd/daemon_mod.rs"]
+pub mod vh_daemon_mod;
